@@ -187,7 +187,7 @@ def run_check(P, tier, seed, replay=None):
     # 2. build the development, re-check the property theorems
     tg = ["theories/Properties/%s.vo" % pid, "theories/Monitors/Mon_%s.vo" % pid] + \
         list(getattr(P, "COQ_TARGETS", []))
-    ok, mlog = vlib.coq_make(targets=tg)
+    ok, mlog = vlib.coq_make(targets=tg, src_specs=getattr(P, "SRC_SPECS", None))
     if not ok:
         proof_ok = False
         proof_why = (proof_why + "; " if proof_why else "") + "coq build failed: " + mlog[-1500:]
